@@ -19,7 +19,7 @@ ASSUMPTIONS = [
 ]
 RULE = ("op lines `c10 mon bfp seed,k,code`: a backup parked after its index load / before its k-th storage operation while the newest or all snapshots are forgotten "
         "and one or two prunes run (pure-reuse backups that add no blob, prune keeping nothing, plan times beyond keep-delete after pack creation; all 24 combinations "
-        "per round; on half of them the follow-up prune runs keep-delete + 1 h after the last marking prune instead of 1 h after — the marks it meets are older than "
+        "per round; where all of >= 2 snapshots are forgotten in a two-prune history the forget may be staged over the two prunes; on half of them the follow-up prune runs keep-delete + 1 h after the last marking prune instead of 1 h after — the marks it meets are older than "
         "keep-delete and what the late backup needs must be recovered all the same; on half of the two-prune combinations ANOTHER backup runs between the two prunes, so "
         "that the second prune merges two small index files and rewrites the index file listing the still-marked packs — stats.json bfp.prune2.keeps-marked.REWRITES-their-index-file, "
         "bfp.followup.recovers.marks-OLDER-than-keep-delete count the histories in which this really happened); op lines `c10 mon <bp|pb|bb> seed,k[,j]`: state = 3 backups of an evolving source, one snapshot forgotten and pruned two keep-delete periods ago (marked packs "
